@@ -135,6 +135,17 @@ CHECKS["C14"] = (
     "Grids are kept away from the polar singularities of their input and output systems (as the property "
     "quantifies); rbe3 cases whose m-set choice is numerically singular (cond > 1e7) are skipped and counted.",
     "3/C14")
+CHECKS["C08"] = (
+    "model-based history testing: Hypothesis generates systems and send histories (advance / redo / jump back / "
+    "add-on / get_f2x probes) against a model of the interface state; oracle = fresh batch tsolve on the force "
+    "history in effect, compared after every send and at finalize; get_f2x vs measured unit add-on response",
+    "Generated-input search over histories for five solver families (SolveUnc real-uncoupled, complex-eigen, "
+    "cd_as_force, SolveCDF, SolveExp2), order 0/1, every contiguous rb|el|rf block order, m None/1-D/2-D and "
+    "zero/random/static initial conditions. After every send the caller-visible d, v (up to the highest valid "
+    "step) and the force record must equal a fresh batch solution of the force history currently in effect; "
+    "finalize must equal the batch d, v, a; get_f2x columns must equal the change produced by unit add-ons.",
+    "The batch solvers themselves are decided by C01/C17; interspersed partitions and pre_eig are documented "
+    "limitations of the generator interface and are not generated.", "3/C08")
 
 NOT_APPLICABLE = {
 }
